@@ -31,6 +31,15 @@ pub const SLOT_E: usize = 7;
 pub const SLOT_INPUT: usize = 8;
 pub const SLOT_H: usize = 9;
 pub const MISSING: usize = 99; // an import of a file that never exists
+/// an import whose file name is longer than NAME_MAX (ENAMETOOLONG, not "not found")
+pub const MISSING_TOO_LONG: usize = 98;
+/// an import of `loop.zy`, a symbolic link to itself (ELOOP); exists in every world
+pub const MISSING_LOOP: usize = 97;
+
+/// Import targets that can never be loaded.
+pub fn never_loads(slot: usize) -> bool {
+    slot == MISSING || slot == MISSING_TOO_LONG || slot == MISSING_LOOP
+}
 
 /// `.zy` implementation -> adjacent `.zyi` slot, where that slot exists in the world.
 /// With the static symlinks, `c.zyi` and `d/e.zyi` are links to `b.zyi`.
@@ -316,6 +325,7 @@ impl Side {
     pub fn create(&self, symlinks: bool) -> std::io::Result<()> {
         let _ = std::fs::remove_dir_all(&self.root);
         std::fs::create_dir_all(self.root.join("d"))?;
+        std::os::unix::fs::symlink("loop.zy", self.root.join("loop.zy"))?;
         if symlinks {
             std::os::unix::fs::symlink("a.zy", self.root.join("l.zy"))?;
             std::os::unix::fs::symlink("d", self.root.join("dl"))?;
